@@ -190,6 +190,15 @@ pub fn step(s: &J) -> String {
                 format!("from {} = {t}", ident(a))
             }
         }
+        "fromlit" => {
+            let cols: Vec<String> = s["cols"].as_array().map(|a| a.iter().map(|c| ident(c.as_str().unwrap_or(""))).collect()).unwrap_or_default();
+            let rows: Vec<String> = s["rows"].as_array().map(|a| a.iter().map(|r| {
+                let vs: Vec<String> = r.as_array().map(|x| x.iter().enumerate().map(|(i, v)| format!("{} = {}", cols[i], lit(v))).collect()).unwrap_or_default();
+                format!("{{{}}}", vs.join(", "))
+            }).collect()).unwrap_or_default();
+            let a = s["alias"].as_str().unwrap_or("");
+            if a.is_empty() { format!("from [{}]", rows.join(", ")) } else { format!("from {} = [{}]", ident(a), rows.join(", ")) }
+        }
         "select" => format!("select {}", items(&s["items"])),
         "derive" => format!("derive {}", items(&s["items"])),
         "exclude" => {
